@@ -125,6 +125,11 @@ def run_path(c):
 def judge(c, r):
     d = c["definition"]
     if "error" in r:
+        lims = d.get("lims") or []
+        if "lam < 0" in r["error"] and any(l is not None and (l[0] is None or l[0] < 0) for l in lims):
+            # a state declared without a lower limit of 0 (or with a negative one) may go negative, and a rate that is linear in it
+            # with it: a negative rate is outside the property's domain (bounded NON-NEGATIVE rates); numpy says so. Not judged.
+            return None
         return ("exception", "solve_stochast raised %s" % r["error"])
     xs, ts, ns = np.array(r["xs"]), r["ts"], r["ns"]
     nS, nE = len(d["states"]), len(d["events"])
